@@ -36,6 +36,50 @@ def _finite(func, kind, text, ok, detail=""):
             "model": None if ok else {"detail": detail}}
 
 
+MEMO_MODULES = {"graphql.type.schema", "graphql.validation.validation_context"}
+
+
+def memo_key_obligations():
+    """Every memo of the form  v = self.X.get(K) ... self.X[K2] = ...  (the schema's sub-type and
+    implementation maps, the validation context's caches, ...) must be filled under the key it is
+    read with: K and K2 are the same expression.  A memo filled under another key answers later
+    questions with the result of a different one - validation then depends on what was validated
+    before.  Finite, syntactic, over every function of graphql.type.schema and
+    graphql.validation.validation_context that has this shape."""
+    import os
+    from pyvc.world import SRC
+    out = []
+    for root, _dirs, files in os.walk(os.path.join(SRC, "graphql")):
+        for f in sorted(files):
+            if not f.endswith(".py"):
+                continue
+            path = os.path.join(root, f)
+            rel = os.path.relpath(path, SRC)[:-3].replace(os.sep, ".")
+            if rel not in MEMO_MODULES:
+                continue      # the memos validation reads: schema maps and the context's caches
+            tree = ast.parse(open(path, encoding="utf-8").read())
+            for fn in ast.walk(tree):
+                if not isinstance(fn, (ast.FunctionDef, ast.AsyncFunctionDef)):
+                    continue
+                reads, writes = {}, {}
+                for n in ast.walk(fn):
+                    if isinstance(n, ast.Call) and isinstance(n.func, ast.Attribute) \
+                            and n.func.attr == "get" and isinstance(n.func.value, ast.Attribute) \
+                            and isinstance(n.func.value.value, ast.Name) \
+                            and n.func.value.value.id == "self" and n.args:
+                        reads.setdefault(n.func.value.attr, []).append(ast.unparse(n.args[0]))
+                    if isinstance(n, ast.Subscript) and isinstance(n.ctx, ast.Store) \
+                            and isinstance(n.value, ast.Attribute) \
+                            and isinstance(n.value.value, ast.Name) and n.value.value.id == "self":
+                        writes.setdefault(n.value.attr, []).append(ast.unparse(n.slice))
+                for attr in sorted(set(reads) & set(writes)):
+                    ok = set(reads[attr]) == set(writes[attr]) and len(set(reads[attr])) == 1
+                    out.append(_finite(f"{rel}.{fn.name}", "MEMO-KEY",
+                                       f"self.{attr} is filled under the key it is read with",
+                                       ok, f"read with {reads[attr]}, filled under {writes[attr]}"))
+    return out
+
+
 def rule_state_obligations(world):
     """Validating twice gives the same answer only if a rule keeps no state between runs: every
     specified rule class (and its bases inside the library) must not define mutable class-level
@@ -69,6 +113,7 @@ def extra_obligations(world, tier, seed):
                        "query_document_keys_to_validate == QUERY_DOCUMENT_KEYS minus 'description' (every kind)",
                        ok))
     out += rule_state_obligations(world)
+    out += memo_key_obligations()
     fn = world.find_def(tree, "validate")
     visit_calls = [n for n in ast.walk(fn) if isinstance(n, ast.Call)
                    and isinstance(n.func, ast.Name) and n.func.id == "visit"]
